@@ -414,6 +414,10 @@ impl World {
         }
         let n = cm.msgs.len();
         let next = cm.mid_of(n) + delta;
+        // ids stay inside the domain of the wire format (varints carry at most 2^62 - 1), with room for the rest of the case
+        if next >= (1u64 << 62) - (1u64 << 34) {
+            return false;
+        }
         let total = cm.jumps.last().map(|(_, o)| *o).unwrap_or(0) + delta;
         if d.to_client {
             let Some(c) = self.server.verif_connection_mut(client_id(d.client)) else { return false };
